@@ -58,8 +58,8 @@ pub fn group_addr(v4: bool) -> SocketAddr {
     }
 }
 
-struct SockHandle {
-    id: u32,
+pub(crate) struct SockHandle {
+    pub(crate) id: u32,
     sim: Weak<Sim>,
 }
 
@@ -76,7 +76,7 @@ impl Drop for SockHandle {
 
 #[derive(Clone)]
 pub struct UdpSocket {
-    h: Arc<SockHandle>,
+    pub(crate) h: Arc<SockHandle>,
 }
 
 impl fmt::Debug for UdpSocket {
@@ -267,6 +267,11 @@ impl UdpSocket {
             return Err(os_err(9));
         }
         sim.yield_now(me);
+        self.send_now(&sim, me, buf, dst)
+    }
+
+    /// The send itself, without the scheduling point (shared with the async shim).
+    pub(crate) fn send_now(&self, sim: &Arc<Sim>, me: u32, buf: &[u8], dst: SocketAddr) -> io::Result<usize> {
         let mut g = sim.lock();
         let sid = self.h.id;
         let (snode, v4, sport, seq) = {
@@ -381,6 +386,7 @@ impl UdpSocket {
         let sid = self.h.id;
         let deadline = {
             let mut g = sim.lock();
+            g.ev(me, EvKind::RecvArm { sock: sid });
             let (seq, to) = {
                 let s = &mut g.sockets[sid as usize];
                 s.recv_seq += 1;
@@ -437,5 +443,32 @@ impl UdpSocket {
         };
         g.ev(me, EvKind::Recv { sock: sid, dgram: d, len: n as u32 });
         Some((n, src, d))
+    }
+}
+
+impl UdpSocket {
+    /// Non-blocking receive used by the async shim: Some(result) if a datagram (or an error)
+    /// is available now.
+    pub(crate) fn recv_now(&self, sim: &Arc<Sim>, me: u32, buf: &mut [u8]) -> Option<io::Result<(usize, SocketAddr)>> {
+        let sid = self.h.id;
+        let mut g = sim.lock();
+        if g.sockets[sid as usize].closed {
+            g.ev(me, EvKind::RecvErr { sock: sid, kind: RecvErrKind::Closed });
+            return Some(Err(os_err(9)));
+        }
+        let d = g.sockets[sid as usize].queue.pop_front()?;
+        let (n, src) = {
+            let dg = &g.dgrams[d as usize];
+            let n = dg.bytes.len().min(buf.len());
+            buf[..n].copy_from_slice(&dg.bytes[..n]);
+            (n, dg.src)
+        };
+        g.ev(me, EvKind::Recv { sock: sid, dgram: d, len: n as u32 });
+        Some(Ok((n, src)))
+    }
+
+    pub(crate) fn arm(&self, sim: &Arc<Sim>, me: u32) {
+        let mut g = sim.lock();
+        g.ev(me, EvKind::RecvArm { sock: self.h.id });
     }
 }
